@@ -197,29 +197,42 @@ class Code310(Code38):
         in lnotab_notes.txt.
 
         """
-        co_linetable = b""
+        co_linetable = bytearray()
 
-        prev_line_number = self.co_firstlineno
-        prev_offset = 0
-        offset_diff = 0
-
-        for offset, line_number in self.co_linetable:
-            line_diff = line_number - prev_line_number
-            prev_line_number = line_number
-            offset_diff = offset - prev_offset
-            prev_offset = offset
-            while offset_diff >= 256:
-                co_linetable += bytearray([255, 0])
-                offset_diff -= 255
-            co_linetable += bytearray([offset_diff, line_diff % 256])
-            while line_diff >= 127:
-                co_linetable += bytearray([0, 127])
+        def emit_range(length, line_diff):
+            # One (address increment, line increment) pair per range of at
+            # most 254 bytes; larger line increments go into empty ranges first.
+            while line_diff > 127:
+                co_linetable.extend([0, 127])
                 line_diff -= 127
             while line_diff < -127:
-                co_linetable += bytearray([0, -127])
-                line_diff -= 127
+                co_linetable.extend([0, -127 & 0xFF])
+                line_diff += 127
+            while length > 254:
+                co_linetable.extend([254, line_diff & 0xFF])
+                line_diff = 0
+                length -= 254
+            co_linetable.extend([length, line_diff & 0xFF])
 
-        self.co_linetable = co_linetable
+        table = list(self.co_linetable)
+        code_size = len(self.co_code)
+        prev_line_number = self.co_firstlineno
+        if table and table[0][0] > 0:
+            # No line number for the bytes before the first entry.
+            length = table[0][0]
+            while length > 254:
+                co_linetable.extend([254, 0x80])
+                length -= 254
+            co_linetable.extend([length, 0x80])
+        for i, (offset, line_number) in enumerate(table):
+            if i + 1 < len(table):
+                end_offset = table[i + 1][0]
+            else:
+                end_offset = max(code_size, offset)
+            emit_range(end_offset - offset, line_number - prev_line_number)
+            prev_line_number = line_number
+
+        self.co_linetable = bytes(co_linetable)
 
     def freeze(self):
         for field in "co_consts co_names co_varnames co_freevars co_cellvars".split():
